@@ -150,8 +150,11 @@ auto arctan2(T y, U x) {
 // arctan2() overload which supports same-dimensioned Quantity types.
 template <typename U1, typename R1, typename U2, typename R2>
 auto arctan2(Quantity<U1, R1> y, Quantity<U2, R2> x) {
+    // Convert to the common unit in the type `std::atan2` computes in, rather than in each input's
+    // own rep (where the conversion could overflow, or lose precision).
     constexpr auto common_unit = CommonUnitT<U1, U2>{};
-    return arctan2(y.in(common_unit), x.in(common_unit));
+    using R = decltype(std::atan2(R1{}, R2{}));
+    return arctan2(y.template in<R>(common_unit), x.template in<R>(common_unit));
 }
 
 // Wrapper for std::cbrt() which handles Quantity types.
@@ -193,8 +196,11 @@ constexpr auto clamp(QuantityPoint<UV, RV> v,
 
 template <typename U1, typename R1, typename U2, typename R2>
 auto hypot(Quantity<U1, R1> x, Quantity<U2, R2> y) {
+    // Convert to the common unit in the type `std::hypot` computes in, rather than in each input's
+    // own rep (where the conversion could overflow, or lose precision).
     using U = CommonUnitT<U1, U2>;
-    return make_quantity<U>(std::hypot(x.in(U{}), y.in(U{})));
+    using R = decltype(std::hypot(R1{}, R2{}));
+    return make_quantity<U>(std::hypot(x.template in<R>(U{}), y.template in<R>(U{})));
 }
 
 // Copysign where the magnitude has units.
